@@ -328,6 +328,11 @@ def _finish(q, slots, scopes, names):
     lim, off = q._limit_clause, q._offset_clause
     cols = frozenset(names)
     if not order:
+        if lim is not None:
+            lt = z3.simplify(as_int(expr(lim, Scope())))
+            if z3.is_int_value(lt) and lt.as_long() == 0:
+                # LIMIT 0 returns no rows whatever the (unspecified) order
+                return Tab([Slot(z3.BoolVal(False), None, s.v) for s in slots], cols, False)
         if lim is not None or off is not None:
             raise OutsideModel("LIMIT/OFFSET without ORDER BY (indeterminate)")
         return Tab(slots, cols, False)
